@@ -8,7 +8,9 @@ import (
 	"strconv"
 	"strings"
 
+	"github.com/paulsonkoly/calc/parser"
 	"github.com/paulsonkoly/calc/types/bytecode"
+	"github.com/paulsonkoly/calc/types/node"
 
 	"verif/ast"
 	"verif/calcrun"
@@ -508,7 +510,26 @@ func c19Case(ctx *core.Ctx, idx int) core.Result {
 	ref.SetStdin("one line\n")
 	ses := calcrun.NewSession()
 	checked := 0
+	// one session in twenty: a statement the compiler refuses (more constants than an operand can address) is
+	// entered somewhere in between, the way the REPL/file loop would take it; it must leave no trace in later reports
+	refuseAt := -1
+	if idx%20 == 7 && len(stmts) > 1 {
+		refuseAt = 1 + r.Intn(len(stmts)-1)
+		res.Tag("failure-at:after-a-refused-statement")
+	}
 	for i, st := range stmts {
+		if i == refuseAt {
+			big := "zbig=[" + strings.Repeat("z,", 32999) + "z]"
+			var pan any
+			out := ""
+			func() {
+				defer func() { pan = recover() }()
+				out = calcrun.Capture(func() { node.VerifProcessInput(big, parser.Type{}, ses.VM, doOut) })
+			}()
+			if pan != nil || !strings.HasPrefix(out, "Compiler: ") {
+				return core.Result{Verdict: core.Inconclusive, Reason: fmt.Sprintf("the oversized statement was not refused: %v %s", pan, trunc(out, 80))}
+			}
+		}
 		if d := ast.Denotable(st); d != "" {
 			return core.Result{Verdict: core.Inconclusive, Reason: "undenotable: " + d}
 		}
@@ -583,6 +604,6 @@ func init() {
 		Families: []core.Family{
 			{Name: "reports", Count: countFn(12000, 1500000), Run: c19Case},
 		},
-		Floors: []core.Floor{{Key: "reports_checked", Quick: 3000, Thor: 300000}, {Key: "frames_checked", Quick: 8000, Thor: 800000}, {Key: "reports_from_inside_generators", Quick: 500, Thor: 50000}, {Key: "tag:err:", Quick: 7, Thor: 7}, {Key: "tag:op:", Quick: 12, Thor: 12}, {Key: "tag:failure-at:", Quick: 21, Thor: 21}},
+		Floors: []core.Floor{{Key: "reports_checked", Quick: 3000, Thor: 300000}, {Key: "frames_checked", Quick: 8000, Thor: 800000}, {Key: "reports_from_inside_generators", Quick: 500, Thor: 50000}, {Key: "tag:err:", Quick: 7, Thor: 7}, {Key: "tag:op:", Quick: 12, Thor: 12}, {Key: "tag:failure-at:", Quick: 22, Thor: 22}},
 	})
 }
